@@ -1044,7 +1044,8 @@ theorem run_good (s : Spec κ ν) (st : St κ ν) (cur : Cur κ ν) (order : Lis
     (hmiss : isHit s st cur = false) :
     run s st cur order =
       ({ children := build s (refMaps (lensOfCur cur s.iterOn) (lensOfCur cur s.zipOn)) st.children,
-         outs := refOuts s cur, cached := if s.useCache then some cur else none }, .ok) := by
+         outs := refOuts s cur, cached := if s.useCache then some cur else none,
+         maps := refMaps (lensOfCur cur s.iterOn) (lensOfCur cur s.zipOn) }, .ok) := by
   unfold run
   rw [hmiss, ready_of_good s cur g]
   simp only [↓reduceIte, Bool.false_eq_true, indexMapsOf_good s cur v g, not_stranded s cur v g,
@@ -1239,6 +1240,44 @@ theorem runs_inv (s : Spec κ ν) (st : St κ ν) (hs : List (Cur κ ν × List 
     obtain ⟨cur, order⟩ := h
     simp only [runs]
     exact ih _ (fun x hx => hc x (by simp [hx])) (run_inv s st cur order v (hc (cur, order) (by simp)) inv)
+
+theorem midRun_inv (s : Spec κ ν) (st st' : St κ ν) (cur : Cur κ ν) (inv : Inv s st)
+    (h : midRun s st cur = some st') : Inv s st' := by
+  unfold midRun at h
+  split at h
+  · cases h
+  · split at h
+    · split at h
+      · cases h
+      · split at h
+        · cases h
+        · simp only [Option.some.injEq] at h
+          subst h
+          exact ⟨inputs_build s _ _ inv.inputs, fun c _ hc _ => by simp at hc⟩
+    · cases h
+
+/-- the invariant survives every event: runs, round trips at rest, snapshots taken mid-run -/
+theorem evs_inv (s : Spec κ ν) (st : St κ ν) (hs : List (Ev κ ν)) (v : Valid s)
+    (hc : ∀ cur order, Ev.run cur order ∈ hs → Good s cur → Covers order (combos s cur).length)
+    (inv : Inv s st) : Inv s (evs s st hs) := by
+  induction hs generalizing st with
+  | nil => exact inv
+  | cons e r ih =>
+    have hr : ∀ cur order, Ev.run cur order ∈ r → Good s cur → Covers order (combos s cur).length :=
+      fun cur order h => hc cur order (List.mem_cons_of_mem _ h)
+    cases e with
+    | run cur order =>
+      simp only [evs]
+      exact ih _ hr (run_inv s st cur order v (hc cur order (by simp)) inv)
+    | reload =>
+      simp only [evs, reload]
+      exact ih _ hr inv
+    | snap cur =>
+      simp only [evs]
+      apply ih _ hr
+      cases hm : midRun s st cur with
+      | none => exact inv
+      | some st' => exact midRun_inv s st st' cur inv hm
 
 /-- from any state satisfying the invariant, a run on good inputs returns the reference outputs
 and leaves the children the current lengths dictate (hit or miss) -/
